@@ -309,6 +309,12 @@ func runCase(c Case, label bool) (errs []string) {
 			}
 			continue
 		}
+		if reachesEmulatedRecursive(rt) {
+			if label {
+				rec.Label("excluded:composite-over-emulated-recursive-type")
+			}
+			continue
+		}
 		order := 0
 		if i < len(c.Order) {
 			order = c.Order[i]
@@ -449,9 +455,9 @@ func pickPackages() []string {
 	if rec.Thorough() {
 		return all
 	}
-	// seed-stratified: every k-th package, offset by the seed (k = 2: with the export-data
-	// importer of fastImporter a package costs milliseconds, so half of them fit the quick budget)
-	k := 2
+	// seed-stratified: every k-th package, offset by the seed (k = 3: with the export-data
+	// importer of fastImporter a package costs milliseconds, so a third of them fits the quick budget on a loaded machine)
+	k := 3
 	var l []string
 	for i, p := range all {
 		if (i+int(rec.Seed()))%k == 0 {
@@ -490,6 +496,10 @@ func TestTableTypes(t *testing.T) {
 			seen[rt] = true
 			if reachesGeneric(rt, map[r.Type]bool{}) {
 				rec.Label("excluded:generic-instantiation")
+				continue
+			}
+			if reachesEmulatedRecursive(rt) {
+				rec.Label("excluded:composite-over-emulated-recursive-type")
 				continue
 			}
 			rec.Eval(1)
@@ -651,7 +661,7 @@ func hasConstruction(ops []Op) bool {
 }
 
 func TestComposites(t *testing.T) {
-	rec.Check(t, rec.Scale(400, 6000), func(t *rapid.T) {
+	rec.Check(t, rec.Scale(250, 3000), func(t *rapid.T) {
 		n := rapid.IntRange(1, 3).Draw(t, "ntypes")
 		c := Case{}
 		for i := 0; i < n; i++ {
